@@ -8,6 +8,7 @@ import XrsVerif.Proofs.ILViewshedOrder
 import XrsVerif.Proofs.ILViewshedRotR
 import XrsVerif.Proofs.ILViewshedSucc
 import XrsVerif.Proofs.ILViewshedInsProg
+import XrsVerif.Proofs.ILViewshedDel
 import Mathlib.Tactic.Positivity
 /-
   C05 -- viewshed marks a cell visible exactly when the line-of-sight model says so.
@@ -886,6 +887,24 @@ theorem generated_insert_reaches_leaf_insert (s : State (NV α)) (fuel n m : Nat
   rw [h6, habs, hval, insCoreC_emb, (insCoreC_eq nn t0).1]
   rfl
 
+/-- **the generated `_delete_from_tree`, descent only** (PARTIAL: the splice, the loops L1 / L2 with the recomputations
+    F1 / C of the stored maxima and the colour fixup -- `ILVs.delRest` -- are not covered): a key that is not in the tree
+    makes the program stop with `ValueError` (the model's `delCore = none`); a key that is in the tree makes it continue
+    with `z` = the node found and `y` = the node the model splices out: `z` itself when it has a NIL child, else the
+    leftmost node of its right subtree -/
+theorem generated_delete_descent (s : State F) (fuel n : Nat) (hv : VS s n) (hrun : s.ctl = .run) (sh : Sh)
+    (hL : Linked (s.ia "tree_nodes") n (-1) sh) (hN : sh.idxs.Nodup) (hroot : s.ienv "root" = sh.ptr)
+    (hf : sh.height + 1 < fuel) :
+    ((absT (s.fa "tree_vals") (s.ia "tree_nodes") sh).contains ⟨s.fenv "key"⟩ = false →
+      (Gen.IL.vsDelete.run s fuel).ctl = .err "ValueError") ∧
+    (∀ (l : Sh) (z : Nat) (r : Sh) (ctx : ILVs.Ctx),
+      findZ (s.fa "tree_vals") ⟨s.fenv "key"⟩ sh [] = some (l, z, r, ctx) →
+      ∃ sD : State F, Gen.IL.vsDelete.run s fuel = exec fuel delRest sD ∧ sD.ctl = .run ∧ sD.ia = s.ia ∧ sD.fa = s.fa ∧
+        sD.ienv "z" = z ∧ sD.ienv "y" = spliceIdx l z r) := by
+  refine ⟨fun h => vsDelete_absent s fuel n hv hrun sh hL hroot (by omega) h, fun l z r ctx hfz => ?_⟩
+  obtain ⟨sD, h1, h2, h3, h4, _, h6, h7, _⟩ := vsDelete_descent_refines s fuel n hv hrun sh hL hN hroot l z r ctx hfz hf
+  exact ⟨sD, h1, h2, h3, h4, h6, h7⟩
+
 /-! non-vacuity: a concrete state holding the three-node tree of the example after `query_decides` (rows 0 = the root
     with key 2, 1 = key 1, 2 = key 3, 3 = NIL); the generated query at key 3 returns 2, the gradient of the node
     with key 1 found by the exact walk; the left rotation at the root applies -/
@@ -951,6 +970,12 @@ example [Trig ℚ] : ∃ sP : State (NV ℚ), Gen.IL.vsInsert.run exStateIns 4 =
     (by simp [absT, nodeAt, vAt, nAt, mapT, mapN, emb, exStateIns, exVals5, exNodes5, exTree])
     (by simp [valNode, valAt, mapN, emb, exStateIns])
   exact ⟨sP, h1, h2, h5⟩
+
+example [Trig ℚ] : (Gen.IL.vsDelete.run { exState with fenv := fun _ => some 7 } 4).ctl = .err "ValueError" := by
+  refine (generated_delete_descent { exState with fenv := fun _ => some 7 } 4 4 ⟨rfl, rfl, rfl, rfl, by decide⟩ rfl exShape
+    exState_holds.linked (by decide) rfl (by decide)).1 ?_
+  simp [absT, nodeAt, vAt, nAt, exState, exVals, exNodes, exShape, Tree.contains, fv_lt]
+  norm_num
 
 end Generated
 
